@@ -44,10 +44,18 @@ where
             cfg.silence_warnings = true;
             let sp0 = verif_rt::SCHED_POINTS.load(std::sync::atomic::Ordering::Relaxed);
             let iters = sched.iters.max(1);
-            let res = std::panic::catch_unwind(std::panic::AssertUnwindSafe(|| match sched.kind.as_str() {
+            // SIM_NDCHECK=1 (determinism runs): wrap the scheduler in shuttle's uncontrolled-nondeterminism
+            // check, which replays every schedule and fails if the sets of runnable tasks differ
+            let ndcheck = std::env::var_os("SIM_NDCHECK").is_some();
+            let res = std::panic::catch_unwind(std::panic::AssertUnwindSafe(|| match (ndcheck, sched.kind.as_str()) {
+                (true, "pct") => shuttle::Runner::new(shuttle::scheduler::UncontrolledNondeterminismCheckScheduler::new(shuttle::scheduler::PctScheduler::new_from_seed(sched.seed, sched.depth.max(1), iters)), cfg).run(f),
+                (true, "rr") => shuttle::Runner::new(shuttle::scheduler::UncontrolledNondeterminismCheckScheduler::new(shuttle::scheduler::RoundRobinScheduler::new(1)), cfg).run(f),
+                (true, _) => shuttle::Runner::new(shuttle::scheduler::UncontrolledNondeterminismCheckScheduler::new(shuttle::scheduler::RandomScheduler::new_from_seed(sched.seed, iters)), cfg).run(f),
+                (false, k) => match k {
                 "pct" => shuttle::Runner::new(shuttle::scheduler::PctScheduler::new_from_seed(sched.seed, sched.depth.max(1), iters), cfg).run(f),
                 "rr" => shuttle::Runner::new(shuttle::scheduler::RoundRobinScheduler::new(1), cfg).run(f),
                 _ => shuttle::Runner::new(shuttle::scheduler::RandomScheduler::new_from_seed(sched.seed, iters), cfg).run(f),
+                },
             }));
             let (th, _tl) = verif_rt::trace_get();
             let sp1 = verif_rt::SCHED_POINTS.load(std::sync::atomic::Ordering::Relaxed);
